@@ -89,6 +89,11 @@ static void h15_body(int t) { static const char *const a[3] = { "a@[0.0.0.0]", "
 static void h16_prep(void) { obj_setup(0, 0, 1); obj_setup(1, 2, 1); obj_setup(2, 1, 1); }
 static void h16_body(int t) { static const char *const a[3] = { "u@mail.test.", "u@mail.info.", "u@a.onion." }; do_email(t, a[t]); do_email(t, a[t]); }
 
+/* H17: quoted strings with white space away from the quotes, mode 6531, twice per thread (the RFC6531_FOLLOW_RFC5322 build has a folding /
+ * white-space rule with look-ahead of its own there; the default build treats them as ordinary qtext) */
+static void h17_prep(void) { obj_setup(0, 3, 1); obj_setup(1, 3, 0); obj_setup(2, 3, 1); }
+static void h17_body(int t) { static const char *const a[3] = { "\"a b\"@x.ac", "\"x  \"@y.ad", "\"q\tr s\".\xd0\xb6@z.ae" }; do_email(t, a[t]); do_email(t, a[t]); }
+
 static harness_t H[] = {
     { "H1-two-6531-idn-validations", 2, h1_prep, h1_body, free_objs },
     { "H2-6531-vs-822", 2, h2_prep, h2_body, free_objs },
@@ -106,6 +111,7 @@ static harness_t H[] = {
     { "H14-tld-lookups-with-capitals", 2, h3_prep, h14_body, NULL },
     { "H15-literals-with-zero-first-octet", 2, h15_prep, h15_body, free_objs },
     { "H16-rooted-names-different-last-labels", 2, h16_prep, h16_body, free_objs },
+    { "H17-quoted-white-space-in-6531", 2, h17_prep, h17_body, free_objs },
     { "T1-three-threads-reserved-names", 3, h3_prep, h3_body, NULL },
     { "T2-three-threads-is_tld", 3, h3_prep, h4_body, NULL },
     { "T3-three-threads-6531-822-5322", 3, h2_prep, h2_body, free_objs },
